@@ -2,6 +2,7 @@ package c10
 
 import (
 	"fmt"
+	"strings"
 	"sync/atomic"
 	"testing"
 	"time"
@@ -74,10 +75,100 @@ func nameProbe(tail string) (chanMsgs int, hookCalled bool, err error) {
 	return chanMsgs, hookCalled, nil
 }
 
+const findingSharedQueue = "hook-queue-shared-by-non-utf8-names"
+
+// sharedQueueProbe: two webhooks whose names differ only in bytes that are
+// not valid UTF-8 (so they read the same inside JSON); the first watches
+// collection A and its endpoint answers 500, the second watches collection B
+// and its endpoint is healthy. Returns a description of the first request
+// that reached an endpoint with the other hook's collection, or of a lost /
+// duplicated / reordered delivery at the healthy endpoint.
+func sharedQueueProbe(tailDown, tailUp string) (string, error) {
+	n := caseSeq.Add(1)
+	keyA, keyB := fmt.Sprintf("nqa%d", n), fmt.Sprintf("nqb%d", n)
+	hDown, hUp := fmt.Sprintf("nq%d", n)+tailDown, fmt.Sprintf("nq%d", n)+tailUp
+	ctl := srv.MustDial()
+	defer ctl.Close()
+	var cnt atomic.Int64
+	epDown, err := newEndpoint(nil, &cnt, "/down")
+	if err != nil {
+		return "", err
+	}
+	epUp, err := newEndpoint(nil, &cnt, "/up")
+	if err != nil {
+		return "", err
+	}
+	epDown.force = "500"
+	epDown.open()
+	epUp.open()
+	defer epDown.shut(true)
+	defer epUp.shut(true)
+	defer func() {
+		ctl.Do("DELHOOK", hDown)
+		ctl.Do("DELHOOK", hUp)
+		ctl.Do("DROP", keyA)
+		ctl.Do("DROP", keyB)
+	}()
+	fence := func(key string) []string {
+		return []string{"WITHIN", key, "FENCE", "DETECT", "enter", "BOUNDS", "-1", "0.5", "1", "1.5"}
+	}
+	if err := mustOK(ctl.Do(append([]string{"SETHOOK", hDown, epDown.url()}, fence(keyA)...)...)); err != nil {
+		return "", fmt.Errorf("SETHOOK: %v", err)
+	}
+	if err := mustOK(ctl.Do(append([]string{"SETHOOK", hUp, epUp.url()}, fence(keyB)...)...)); err != nil {
+		return "", fmt.Errorf("SETHOOK: %v", err)
+	}
+	var wantUp []string
+	for i := 0; i < 3; i++ {
+		if err := mustOK(ctl.Do("SET", keyA, fmt.Sprintf("a%d", i), "POINT", "0", "1")); err != nil {
+			return "", err
+		}
+	}
+	for i := 0; i < 4; i++ {
+		id := fmt.Sprintf("b%d", i)
+		wantUp = append(wantUp, id)
+		if err := mustOK(ctl.Do("SET", keyB, id, "POINT", "0", "1")); err != nil {
+			return "", err
+		}
+	}
+	// deliveries are in queue order: once the last one of B has been answered
+	// 200 everything queued before it has been tried
+	last := wantUp[len(wantUp)-1]
+	epUp.mu.Lock()
+	done := waitCond(epUp.cond, time.Now().Add(t38.ReplyTimeout), func() bool {
+		for _, b := range epUp.ok {
+			if strings.Contains(b, `"`+last+`"`) {
+				return true
+			}
+		}
+		return false
+	})
+	epUp.mu.Unlock()
+	if !done {
+		return "", fmt.Errorf("the healthy endpoint did not receive its last notification within %v (%d requests so far)", t38.ReplyTimeout, len(lcBodies(epUp)))
+	}
+	next := 0
+	for i, r := range lcBodies(epUp) {
+		if r.Key != keyB {
+			return fmt.Sprintf("the healthy endpoint of hook %q (collection %s) received request #%d with key=%q id=%q, a notification of hook %q", hUp, keyB, i, r.Key, r.ID, hDown), nil
+		}
+		if next >= len(wantUp) || r.ID != wantUp[next] {
+			return fmt.Sprintf("the healthy endpoint of hook %q received %q as request #%d, expected %v in order, once", hUp, r.ID, i, wantUp), nil
+		}
+		next++
+	}
+	for i, r := range lcBodies(epDown) {
+		if r.Key != keyA {
+			return fmt.Sprintf("the failing endpoint of hook %q (collection %s) received request #%d with key=%q id=%q, a notification of hook %q", hDown, keyA, i, r.Key, r.ID, hUp), nil
+		}
+	}
+	return "", nil
+}
+
 func TestC10_Names(t *testing.T) {
 	c := ev.New("C10", "names", "exploration")
 	t.Cleanup(c.Flush)
-	c.Rule("deterministic probes: for every entry of the hostile name-tail list (spaces, quotes and backslash, NUL, control characters, multi-byte UTF-8, JSON-looking text, 3000 bytes, three kinds of invalid UTF-8) one SETCHAN fence and one SETHOOK fence with that name, an acknowledged subscriber, one acknowledged SET entering the fence, a sentinel PUBLISH on the same channel name. Oracle: the subscriber gets enter+inside before the sentinel and the endpoint is called twice. The same tails are drawn for channel, fence-channel and hook names in the pubsub, webhook and webhook-restart sub-checks. Every probe is non-trivial; distinct by tail.")
+	c.Rule("deterministic probes: for every entry of the hostile name-tail list (spaces, quotes and backslash, NUL, control characters, multi-byte UTF-8, JSON-looking text, 3000 bytes, three kinds of invalid UTF-8) one SETCHAN fence and one SETHOOK fence with that name, an acknowledged subscriber, one acknowledged SET entering the fence, a sentinel PUBLISH on the same channel name. Oracle: the subscriber gets enter+inside before the sentinel and the endpoint is called twice. Then four pairs of webhooks whose names differ only in invalid UTF-8 bytes (equal inside JSON), the first on collection A with an endpoint answering 500, the second on collection B with a healthy endpoint, 3 + 4 acknowledged entering SETs: every request must reach the endpoint of the hook whose collection it names, the healthy one gets its 4 in order, once. The same tails are drawn for channel, fence-channel and hook names in the pubsub, webhook, webhook-restart and hook-lifecycle sub-checks. Every probe is non-trivial; distinct by tail.")
 	start := now()
 	for i, tail := range hostileTail {
 		c.Case()
@@ -107,5 +198,28 @@ func TestC10_Names(t *testing.T) {
 	}
 	if ev.KnownActive(findingNameUTF8) {
 		c.Excluded(findingNameUTF8)
+	}
+	// webhook queue: names that differ only in invalid bytes
+	for i, pair := range [][2]string{{"\xff", "\xfe"}, {"\xfe", "\xff"}, {"x\xc3", "x\xe2\x82"}, {"\xff\xff", "\xff\xfe"}} {
+		c.Case()
+		c.NonTrivial(fmt.Sprintf("pair-%d", i))
+		what, err := sharedQueueProbe(pair[0], pair[1])
+		switch {
+		case err != nil && mon.MaxSince(start) > time.Second:
+			c.Inconclusive("shared-queue probe %q/%q: %v (test process stalled)", pair[0], pair[1], err)
+		case err != nil:
+			c.Violation("webhook-stalled", fmt.Sprintf("shared-queue probe %q/%q: %v", pair[0], pair[1], err), nil)
+			t.Errorf("VIOLATION-CANDIDATE key=webhook-stalled: %v", err)
+		case what != "":
+			if ev.KnownActive(findingSharedQueue) {
+				c.Known(findingSharedQueue, what)
+				continue
+			}
+			c.Violation(findingSharedQueue, what, map[string]any{"tails": [][]byte{[]byte(pair[0]), []byte(pair[1])},
+				"how": "SETHOOK <n+tail0> <endpoint answering 500> WITHIN A FENCE DETECT enter BOUNDS -1 0.5 1 1.5; SETHOOK <n+tail1> <healthy endpoint> WITHIN B ...; 3 SETs into A, 4 into B"})
+			t.Errorf("VIOLATION-CANDIDATE key=%s: %s", findingSharedQueue, what)
+		default:
+			c.Label("hooks-with-names-equal-in-JSON-kept-apart")
+		}
 	}
 }
